@@ -8,6 +8,12 @@ for f in ("patch.diff", "seed_demo_test.go", "meta.json"):
     shutil.copy(os.path.join(src, f), os.path.join(dst, f))
 meta = json.load(open(os.path.join(dst, "meta.json")))
 assert subprocess.run(["git", "-C", "/repo", "diff", "--quiet"]).returncode == 0, "repo dirty"
+# evidence files are rewritten by every check run: keep the ones from the unchanged tree and put them back afterwards
+saved = {}
+for p in props:
+    f = f"/verif/evidence/{p}.json"
+    if os.path.exists(f):
+        saved[f] = open(f).read()
 subprocess.run(["git", "-C", "/repo", "apply", os.path.join(dst, "patch.diff")], check=True)
 res = []
 try:
@@ -32,6 +38,9 @@ try:
         if replay: print("    failing input:", json.dumps(replay)[:400])
 finally:
     subprocess.run(["git", "-C", "/repo", "checkout", "--", "."], check=True)
+    subprocess.run(["git", "-C", "/repo", "clean", "-fdq"], check=False)
+    for f, txt in saved.items():
+        open(f, "w").write(txt)
 meta["verif_results"] = res
 meta["caught"] = any(x["exit"] != 0 for x in res)
 meta["caught_with_failing_input"] = any(x["failing_input"] for x in res)
